@@ -1,0 +1,10 @@
+//go:build verif
+// +build verif
+
+package bitmap
+
+// VerifSelect8Lookup returns a copy of the unexported in-byte select table.
+// It only exists in builds with the "verif" tag (verification hook, read only).
+func VerifSelect8Lookup() [256 * 8]uint8 {
+	return select8Lookup
+}
